@@ -16,6 +16,13 @@ prop(
         "decoded through SignedMessage::decode (strict and relaxed), ProvisioningCms::decode and PublicationCms::decode; validated under the peer key and under forger / EE / unrelated keys; "
         "single-bit flips classified through the harness' DER reader into covered regions (eContent, signedAttrs, signature, sid, digest OIDs, EE TBS and signature, CRL TBS and signature; rejection asserted) "
         "and uncovered ones (recorded) - thorough enumerates every covered bit of four messages. "
+        "(2b) the CRL of a valid message gets one more extension (freshestCRL, authorityInfoAccess, issuerAltName, private OIDs with NULL / empty SEQUENCE / two values; one critical private OID) at the first, "
+        "middle or last position and is signed again by the peer key: non-critical ones must still validate through all four entry points, the critical unknown one is recorded. "
+        "(3) the library's own in-memory signer (crypto::softsigner::SoftSigner) under a history of calls, one history per shard (12 in thorough): 3-6 keys enter through key_from_der, key_from_pem(PKCS#8) "
+        "(cached pool keys, public half known to the harness) and create_key (public key recorded right after creation); then 5-8 steps of destroy_key (mostly not the newest key), further imports, "
+        "sign_one_off, and SignedMessage / ProvisioningCms / PublicationCms::create under live ids created before and after a destroyed one and under destroyed ids. After every step, for every id: "
+        "get_key_info must still return the recorded key, sign must verify (aws-lc-rs directly) under the recorded key of that id and of no other; a created message must validate under the key recorded for its id "
+        "and under no other key of the history; a destroyed id may refuse or keep using its own key (recorded) but must not sign with another key. "
         "A case signature is (entry point, attribute order, signed-attrs size class, violated condition or none, CRL shape, EE AKI / basicConstraints shape, BER variant, "
         "time position relative to both windows, key relation) or (flip, entry point, region, decoded?). evaluations = validate_at (or failed decode) results judged by the oracle."
     ),
@@ -26,6 +33,8 @@ prop(
         "present-but-empty revokedCertificates, GeneralizedTime before 2050 in the CRL, CRL with an empty extension list, BER encodings under strict decoding",
         "an unsorted SET OF signedAttrs is run under both signature inputs (as transmitted, DER-sorted); at least one of the two must validate",
         "the largest signed-attribute set tried is 4000 octets",
+        "RFC 6492 / 8181 / 8183 do not profile the CRL of the business PKI (RFC 6487 section 5 restricts RPKI CRLs only) and RFC 5280 lets a verifier ignore unknown non-critical extensions, so a CRL with such an extension still meets every condition of the statement",
+        "SoftSigner histories need RSA key generation (create_key and the one-off EE key of every created message): one short history per shard natively and under ASan, none under valgrind",
     ],
     level_text=(
         "Runtime oracle: the conjunction in the statement (digest, signature over the DER SET OF of all signed attributes, EE signed by the peer key / current / not a CA, CRL signed by the peer key / current / "
@@ -34,6 +43,6 @@ prop(
         "every covered bit of four messages, an ASan stage (600 + 5 000 messages, 12 000 flips) and valgrind memcheck (8 + 48 messages, 1 200 tampered decodes)."
     ),
     level_note="Trusts the harness' CMS / X.509 / CRL writer and aws-lc-rs as signing and digest oracle; explores a structured sample of messages, times and keys.",
-    technique="runtime oracle over library-created and independently encoded CMS messages + single-point tampering + classified bit flips; ASan; valgrind memcheck",
+    technique="runtime oracle over library-created and independently encoded CMS messages + single-point tampering + classified bit flips + model-checked call histories on the library's own signer; ASan; valgrind memcheck",
     design_ref="DESIGN.md §4 C10",
 )
